@@ -297,6 +297,7 @@ func (s *Session) Close() error {
 	if !atomic.CompareAndSwapUint32(&s.shutdown, 0, 1) {
 		return nil
 	}
+	verifTrace("SClose", nil, s, 0, 0)
 	s.logger.infof("close session %s hadShutDown:%d connFd:%d", s.name, atomic.LoadUint32(&s.shutdown), s.connFd)
 
 	s.shutdownLock.Lock()
